@@ -76,13 +76,14 @@ type access struct {
 }
 
 type lockUnit struct {
-	Name   string
-	Fn     *core.Func // enclosing declaration
-	Body   *ast.BlockStmt
-	Lit    *ast.FuncLit
-	Entry  lockState // locks known held on entry (inline closures)
-	Detach bool      // runs on its own goroutine / later (go, AfterFunc, stored callbacks)
-	Acc    []access
+	Name    string
+	Fn      *core.Func // enclosing declaration
+	Body    *ast.BlockStmt
+	Lit     *ast.FuncLit
+	Entry   lockState // locks known held on entry (inline closures)
+	Detach  bool      // runs on its own goroutine / later (go, AfterFunc, stored callbacks)
+	Created lockState // locks held where the literal is evaluated
+	Acc     []access
 }
 
 type lockAnalysis struct {
@@ -133,6 +134,64 @@ func newLockAnalysis(c *Ctx, protected map[string]string) *lockAnalysis {
 	// analyse declarations first; literals are added as they are discovered
 	for i := 0; i < len(la.units); i++ {
 		la.analyse(la.units[i])
+	}
+	// helpers introduced after the review start with the locks every one of their (direct)
+	// call sites holds: their code used to be part of the callers
+	for round := 0; round < 3; round++ {
+		changed := false
+		for _, fn := range p.SortedFuncs() {
+			if pinnedFuncs[fn.Name] {
+				continue
+			}
+			u := la.byDecl[fn]
+			var entry lockState
+			ok := true
+			for _, s := range c.G.Callers(fn) {
+				if s.Ref {
+					ok = false
+				}
+			}
+			n := 0
+			for _, cu := range la.units {
+				for _, a := range cu.Acc {
+					if a.Call != fn.Obj {
+						continue
+					}
+					n++
+					if entry == nil {
+						entry = a.Held.clone()
+					} else {
+						entry = meet(entry, a.Held)
+					}
+				}
+			}
+			if !ok || n == 0 || entry == nil {
+				entry = lockState{}
+			}
+			if eqState(entry, u.Entry) {
+				continue
+			}
+			changed = true
+			u.Entry = entry
+			u.Acc = nil
+			var keep []*lockUnit
+			for _, x := range la.units {
+				if x.Lit != nil && x.Fn == fn {
+					delete(la.byLit, x.Lit)
+					continue
+				}
+				keep = append(keep, x)
+			}
+			la.units = keep
+			start := len(la.units)
+			la.analyse(u)
+			for i := start; i < len(la.units); i++ {
+				la.analyse(la.units[i])
+			}
+		}
+		if !changed {
+			break
+		}
 	}
 	return la
 }
@@ -191,7 +250,7 @@ func (la *lockAnalysis) node(u *lockUnit, n ast.Node, st lockState, record bool)
 		if fl, ok := ast.Unparen(ds.Call.Fun).(*ast.FuncLit); ok {
 			// deferred closure: runs before the deferred unlocks registered earlier
 			if record {
-				la.addLit(u, fl, st.clone(), false)
+				la.addLit(u, fl, st.clone(), false, st)
 			}
 			return
 		}
@@ -199,7 +258,7 @@ func (la *lockAnalysis) node(u *lockUnit, n ast.Node, st lockState, record bool)
 	if gs, ok := n.(*ast.GoStmt); ok {
 		if fl, ok := ast.Unparen(gs.Call.Fun).(*ast.FuncLit); ok {
 			if record {
-				la.addLit(u, fl, lockState{}, true)
+				la.addLit(u, fl, lockState{}, true, st)
 			}
 			for _, a := range gs.Call.Args {
 				la.expr(u, a, st, record, false)
@@ -247,11 +306,11 @@ func (la *lockAnalysis) node(u *lockUnit, n ast.Node, st lockState, record bool)
 	}
 }
 
-func (la *lockAnalysis) addLit(u *lockUnit, fl *ast.FuncLit, entry lockState, detach bool) {
+func (la *lockAnalysis) addLit(u *lockUnit, fl *ast.FuncLit, entry lockState, detach bool, created lockState) {
 	if la.byLit[fl] != nil {
 		return
 	}
-	nu := &lockUnit{Name: fmt.Sprintf("%s$func@%d", u.Fn.Name, la.c.P.Fset.Position(fl.Pos()).Line), Fn: u.Fn, Body: fl.Body, Lit: fl, Entry: entry, Detach: detach}
+	nu := &lockUnit{Name: fmt.Sprintf("%s$func@%d", u.Fn.Name, la.c.P.Fset.Position(fl.Pos()).Line), Fn: u.Fn, Body: fl.Body, Lit: fl, Entry: entry, Detach: detach, Created: created.clone()}
 	la.byLit[fl] = nu
 	la.units = append(la.units, nu)
 }
@@ -269,7 +328,7 @@ func (la *lockAnalysis) expr(u *lockUnit, e ast.Expr, st lockState, record bool,
 		// a literal used as a value: runs later with unknown locks unless it is
 		// an argument of a call (handled in CallExpr)
 		if record {
-			la.addLit(u, v, lockState{}, true)
+			la.addLit(u, v, lockState{}, true, st)
 		}
 	case *ast.CallExpr:
 		if mu, op := mutexName(p, v); mu != "" {
@@ -302,9 +361,9 @@ func (la *lockAnalysis) expr(u *lockUnit, e ast.Expr, st lockState, record bool,
 			if fl, ok := ast.Unparen(a).(*ast.FuncLit); ok {
 				if record {
 					if detachedArg {
-						la.addLit(u, fl, lockState{}, true)
+						la.addLit(u, fl, lockState{}, true, st)
 					} else {
-						la.addLit(u, fl, st.clone(), false) // invoked by the callee while we hold our locks
+						la.addLit(u, fl, st.clone(), false, st) // invoked by the callee while we hold our locks
 					}
 				}
 				continue
